@@ -282,4 +282,42 @@ def params (qs : Str) (body : Bytes) : Except Err (Dict Val) := do
   let f ← forms body
   pure (f.foldl (fun d p => d.set p.1 p.2) q)
 
+/-! ### the `Content-Type` of the request in front of `forms`
+
+`BodyMixin.POST` looks at the header once, to pick a branch; the urlencoded branch reads the body
+the same way whatever else the header says (media type, `charset=` or any other parameter): the
+escapes of an urlencoded body are UTF-8 by definition, a label does not change that. -/
+
+/-- `str.lower()` on ASCII and Latin-1 capitals (all the dispatch of `POST` can see: it compares with
+two ASCII prefixes, and no other character lowers to a letter of those) -/
+def lowerCh (c : Char) : Char :=
+  let n := c.toNat
+  if (65 ≤ n && n ≤ 90) || (0xc0 ≤ n && n ≤ 0xde && n != 0xd7) then Char.ofNat (n + 32) else c
+
+/-- the branch `POST` takes -/
+inductive FormKind where
+  | multipart | json | urlencoded
+  deriving Repr, DecidableEq
+
+/-- `ctype = self.content_type` (`environ.get('CONTENT_TYPE', '').lower()`);
+`ctype.startswith('multipart/')`, `ctype.startswith('application/json')`, else the fast path -/
+def formKind (ct : Option Str) : FormKind :=
+  let c := (ct.getD []).map lowerCh
+  if "multipart/".toList.isPrefixOf c then .multipart
+  else if "application/json".toList.isPrefixOf c then .json
+  else .urlencoded
+
+/-- `Request.forms` / `.POST` as a function of the Content-Type header and the body; `none` = the
+multipart / JSON branches (models of C07 / C12) -/
+def formsCt (ct : Option Str) (body : Bytes) : Option (Except Err (Dict Val)) :=
+  match formKind ct with
+  | .urlencoded => some (forms body)
+  | _ => none
+
+/-- `PropsMixin.params` under that header -/
+def paramsCt (ct : Option Str) (qs : Str) (body : Bytes) : Option (Except Err (Dict Val)) :=
+  match formKind ct with
+  | .urlencoded => some (params qs body)
+  | _ => none
+
 end Ombott.Qs
